@@ -66,7 +66,7 @@ GenomeOf(s, g, m) ==
         Io(S, k) == LET q == IF rev THEN Reverse(SetToAsc(S)) ELSE SetToAsc(S)
                     IN [j \in DOMAIN q |-> [n |-> s.ids[q[j]], w |-> W[((j + k + pat) % 3) + 1]]]
     IN [nodes |-> [i \in Pos1(s) |-> [id |-> s.ids[i], role |-> s.roles[i],
-                                      act |-> IF Sensor(s.roles[i]) THEN 0 ELSE (i + pat) % NActs]],
+                                      act |-> IF Sensor(s.roles[i]) THEN (IF pat % 2 = 0 THEN 0 ELSE (i + pat) % NActs) ELSE (i + pat) % NActs]],
         genes |-> [k \in DOMAIN ord |-> [inn |-> 2 * k - 1 + pat, src |-> s.ids[PairSrc(s, ord[k].p)],
                                          dst |-> s.ids[PairDst(s, ord[k].p)], w |-> W[((k + pat) % 3) + 1],
                                          rec |-> ord[k].rec, en |-> ord[k].en]],
